@@ -2,6 +2,7 @@ package props
 
 import (
 	"fmt"
+	"sync"
 
 	"astverif/layout"
 	"astverif/lin"
@@ -83,6 +84,95 @@ func afSpec(c *layout.Checker) []*layout.Source {
 		}
 	}
 	return out
+}
+
+// tsPacketSpec: transport_packet() of 2.4.3.2 as a whole — sync_byte, header, adaptation field and payload for the four
+// values' worth of adaptation_field_control that carry something (01 payload only, 11 both, 10 adaptation field only,
+// and the one-byte adaptation field of length 0), in 188-byte form and in the library's 188+k-byte form (k extra bytes
+// between the sync byte and the header, k = 4 and 16: "packets of 192 or 204 bytes yield the same packets").
+type tsPacketInst struct {
+	lead     int
+	kind     string
+	stuffing int64
+}
+
+var tsPacketInsts sync.Map // *layout.Source -> tsPacketInst
+
+func tsPacketSpec(c *layout.Checker) []*layout.Source {
+	var out []*layout.Source
+	type kd struct {
+		kind     string
+		stuffing int64
+	}
+	kinds := []kd{{"payload", 0}, {"af+payload", 0}, {"af+payload", 7}, {"af+payload", 181}, {"af-only", 182}, {"one-byte-af", 0}}
+	for _, lead := range []int{0, 4, 16} {
+		for _, k := range kinds {
+			b := c.NewSpec(fmt.Sprintf("transport packet %s stuffing=%d extra=%d", k.kind, k.stuffing, lead))
+			b.Const(8, 0x47)
+			if lead > 0 {
+				b.Opaque(8*lead, "$extra")
+			}
+			hasAF, hasPayload := k.kind != "payload", k.kind != "af-only"
+			b.Flag("$p.Header.TransportErrorIndicator").Flag("$p.Header.PayloadUnitStartIndicator").Flag("$p.Header.TransportPriority")
+			b.Field(13, "$p.Header.PID").Field(2, "$p.Header.TransportScramblingControl")
+			b.FlagIs("$p.Header.HasAdaptationField", hasAF).FlagIs("$p.Header.HasPayload", hasPayload)
+			b.Field(4, "$p.Header.ContinuityCounter")
+			af := "$p/AdaptationField"
+			switch k.kind {
+			case "payload":
+				b.BlobN("$p.Payload", 184)
+			case "one-byte-af":
+				b.Const(8, 0)
+				b.BlobN("$p.Payload", 183)
+			default:
+				b.LengthOfRest(8)
+				b.Flag(af + ".DiscontinuityIndicator").Flag(af + ".RandomAccessIndicator").Flag(af + ".ElementaryStreamPriorityIndicator")
+				b.FlagIs(af+".HasPCR", false).FlagIs(af+".HasOPCR", false).FlagIs(af+".HasSplicingCountdown", false)
+				b.FlagIs(af+".HasTransportPrivateData", false).FlagIs(af+".HasAdaptationExtensionField", false)
+				if k.stuffing > 0 {
+					b.Stuffing(af + ".StuffingLength")
+				}
+				b.Fix(af+".StuffingLength", k.stuffing)
+				b.EndLength()
+				if hasPayload {
+					b.BlobN("$p.Payload", 182-k.stuffing)
+				}
+			}
+			src := b.Source()
+			tsPacketInsts.Store(src, tsPacketInst{lead, k.kind, k.stuffing})
+			out = append(out, src)
+		}
+	}
+	return out
+}
+
+func c11PacketSpecPairs(c *Ctx) []layout.RTPair {
+	return []layout.RTPair{
+		{Name: "spec/ts-packet", Parser: c.fn("parsePacket"), Sources: tsPacketSpec, It: "$i", Root: "$p", RootPtr: true, MinSources: 18, ExactLen: true,
+			ParserPreds: map[string]bool{"nil:$s": true}, // no packet skipper (C19 decides the skipper)
+			// without payload the parser stops after the adaptation field flags (what follows is stuffing)
+			ConsumedSkip: func(src *layout.Source) bool {
+				in, _ := tsPacketInsts.Load(src)
+				return in.(tsPacketInst).kind == "af-only"
+			},
+			Computed: map[string]func(*layout.Source) *lin.Form{
+				"AdaptationField.Length": func(src *layout.Source) *lin.Form {
+					v, _ := tsPacketInsts.Load(src)
+					in := v.(tsPacketInst)
+					f := lin.Const(0)
+					if in.kind == "af+payload" || in.kind == "af-only" {
+						f = lin.Const(1 + in.stuffing)
+					}
+					return &f
+				},
+				"AdaptationField.IsOneByteStuffing": exempt,
+			},
+			Why: map[string]string{
+				"AdaptationField.IsOneByteStuffing": "not a field of the standard: the library's marker for adaptation_field_length = 0 (decided by A3)",
+			},
+			ElsewherePrefix: "AdaptationField.", ElsewhereWhy: "the optional parts of the adaptation field are decided by spec/adaptation-field",
+		},
+	}
 }
 
 func c11SpecPairs(c *Ctx) []layout.RTPair {
